@@ -525,7 +525,7 @@ func c03configured(c *an.Ctx) {
 				if ex.Kind != an.ExitReturn || pv == nil {
 					continue
 				}
-				if ex.State.Get("stored:"+target) == "" && !an.FactIs(ex.State, pv.Name()+` == ""`, true) {
+				if ex.State.Get("stored:"+target) == "" && !an.FactIs(ex.State, an.RoleOf(pv)+` == ""`, true) {
 					ok = false
 				}
 			}
